@@ -107,7 +107,8 @@ def run(ctx, res):
             # rdflib rewrites the lexical form of literals typed with an XSD datatype when it can convert them (and "false" for ill-typed booleans)
             def untyped(qs):
                 import re
-                return sorted([q[0], q[1], re.sub(r'^".*"\^\^<http://www\.w3\.org/2001/XMLSchema#\w+>$', '"?"^^xsd', q[2], flags=re.S), q[3]] for q in qs)
+                # as a set: several ill-typed literals normalise to one value ("x"^^boolean and "y"^^boolean are both "false"), so the store may hold fewer statements
+                return sorted(set((q[0], q[1], re.sub(r'^".*"\^\^<http://www\.w3\.org/2001/XMLSchema#\w+>$', '"?"^^xsd', q[2], flags=re.S), q[3]) for q in qs))
             if untyped(o['rdflib_store']) == untyped(exp):
                 res.violations.append({'key': 'rdflib-normalises-literals', 'what': 'recorded finding reproduced', 'replay': None})
                 continue
